@@ -582,6 +582,133 @@ def fam_ifstmt(arg):
     return acc.result()
 
 
+
+# ---------------------------------------------------------------- reads at great nesting depth
+
+DEEP_SHAPES = ('left-chain', 'right-chain', 'groups', 'negations', 'call-arguments', 'logical-chain')
+DEEP_N = 130
+
+
+def deep_expr(shape, name):
+    e = {'variable': name}
+    one = {'number': 1}
+    for _ in range(DEEP_N):
+        if shape == 'left-chain':
+            e = {'binary': {'op': '+', 'left': e, 'right': one}}
+        elif shape == 'right-chain':
+            e = {'binary': {'op': '+', 'left': one, 'right': e}}
+        elif shape == 'groups':
+            e = {'group': e}
+        elif shape == 'negations':
+            e = {'unary': {'op': '-', 'expr': e}}
+        elif shape == 'call-arguments':
+            e = {'function': {'name': 'mathAbs', 'args': [e]}}
+        else:
+            e = {'binary': {'op': '&&', 'left': e, 'right': one}}
+    return e
+
+
+def deep_cases():
+    return [{'shape': sh, 'as': a, 'kind': k} for sh in DEEP_SHAPES for a in ('local', 'argument') for k in ('return', 'jumpif')]
+
+
+def check_deep_use(case, acc):
+    """The only read of a local variable / an argument sits DEEP_N levels down an expression: it is a use."""
+    as_arg = case['as'] == 'argument'
+    name = 'ua' if as_arg else 'uv'
+    e = deep_expr(case['shape'], name)
+    log = lambda x: {'expr': {'expr': {'function': {'name': 'systemLog', 'args': [x]}}}}  # noqa: E731
+    body = [] if as_arg else [{'expr': {'name': 'uv', 'expr': {'number': 5}}}]
+    if case['kind'] == 'return':
+        body += [{'return': {'expr': e}}]
+    else:
+        body += [{'jump': {'label': 'L', 'expr': e}}, log({'string': 'not-taken'}), {'label': 'L'}, {'return': {'expr': {'string': 'r'}}}]
+    f = {'name': 'hh', 'statements': body}
+    if as_arg:
+        f['args'] = ['ua']
+    model = {'statements': [{'function': f},
+                            {'expr': {'name': 'rr', 'expr': {'function': {'name': 'hh', 'args': [{'number': 5}] if as_arg else []}}}},
+                            log({'binary': {'op': '+', 'left': {'string': 'rr='}, 'right': {'variable': 'rr'}}}),
+                            {'return': {'expr': {'variable': 'rr'}}}]}
+    cls = purity_and_exactness(model, case, acc)
+    if cls is None:
+        return
+    if any(c[0] in ('unused-var', 'unused-arg') for c in cls):
+        acc.nontrivial += 1
+    justify(model, cls, case, acc, usesite_runner, 0)
+
+
+def fam_deep_uses(arg):
+    acc = Acc('deep_uses')
+    for case in arg:
+        acc.cases += 1
+        check_deep_use(case, acc)
+    if arg:
+        acc.sample(dict(arg[0], nesting_depth=DEEP_N))
+    return acc.result()
+
+
+# ---------------------------------------------------------------- the same warnings in every interpreter process
+
+HASHSEEDS = ('1', '2', '3', '5', '8', '13')
+
+
+def hashseed_models():
+    lab = lambda n: {'label': n}  # noqa: E731
+    jmp = lambda n: {'jump': {'label': n}}  # noqa: E731
+    ass = lambda n: {'expr': {'name': n, 'expr': {'number': 1}}}  # noqa: E731
+    names = ['alpha', 'beta', 'gamma', 'delta', 'eps', 'zeta', 'eta', 'theta']
+    many_labels = [lab('u_' + n) for n in names] + [jmp('k_' + n) for n in names]
+    return [
+        ('global: 8 unused labels + 8 unknown targets', {'statements': copy.deepcopy(many_labels)}),
+        ('function: 8 unused labels + 8 unknown targets', {'statements': [{'function': {'name': 'ff', 'statements': copy.deepcopy(many_labels)}}]}),
+        ('function: 8 unused variables, 8 unused arguments', {'statements': [{'function': {'name': 'ff', 'args': ['a_' + n for n in names], 'statements': [ass('v_' + n) for n in names]}}]}),
+        ('8 functions defined twice, duplicate arguments', {'statements': [{'function': {'name': 'f_' + n, 'args': ['a', 'a', 'b', 'b'], 'statements': [{'return': {'expr': {'variable': 'a'}}}]}} for n in names + names]}),
+        ('labels defined twice in two scopes', {'statements': [lab(n) for n in names + names] + [jmp(n) for n in names]
+                                                 + [{'function': {'name': 'ff', 'statements': [lab(n) for n in names + names] + [jmp(n) for n in names]}}]}),
+    ]
+
+
+_LINT_CHILD = ("import json, sys\nsys.path.insert(0, sys.argv[1])\nfrom bare_script.model import lint_script\n"
+               "print(json.dumps(lint_script(json.load(sys.stdin))))\n")
+
+
+def check_hashseed(case, acc):
+    import json  # pylint: disable=import-outside-toplevel
+    import os  # pylint: disable=import-outside-toplevel
+    import subprocess  # pylint: disable=import-outside-toplevel
+    import sys  # pylint: disable=import-outside-toplevel
+    from ..common import REPO_DIR  # pylint: disable=import-outside-toplevel
+    name, model = hashseed_models()[case['m']]
+    outs = {}
+    for seed in HASHSEEDS:
+        env = dict(os.environ, PYTHONHASHSEED=seed)
+        proc = subprocess.run([sys.executable, '-c', _LINT_CHILD, os.path.join(REPO_DIR, 'src')], input=json.dumps(model), capture_output=True, text=True, env=env, check=False)
+        acc.evals += 1
+        if proc.returncode != 0:
+            acc.violation(dict(case, model=name, hashseed=seed), 'a list of warnings', proc.stderr.strip().splitlines()[-1:] or ['exit ' + str(proc.returncode)], 'lint_script raised in a fresh interpreter')
+            return
+        outs[seed] = json.loads(proc.stdout)
+    first = outs[HASHSEEDS[0]]
+    for seed in HASHSEEDS[1:]:
+        if outs[seed] != first:
+            acc.violation(dict(case, model=name, hashseeds=[HASHSEEDS[0], seed]), first[:8], outs[seed][:8],
+                          'the same model gives different warning lists in two interpreter processes (string hash seeds differ)')
+            return
+    if first:
+        acc.nontrivial += 1
+    acc.outcome(len(first))
+
+
+def fam_hashseed(arg):
+    acc = Acc('hashseeds')
+    for m in arg:
+        acc.cases += 1
+        check_hashseed({'m': m}, acc)
+    acc.sample({'models': [n for n, _ in hashseed_models()], 'hash_seeds': list(HASHSEEDS)})
+    return acc.result()
+
+
 # ---------------------------------------------------------------- use sites of a local variable / an argument
 
 USE_KINDS = ('return', 'assign-then-return', 'jumpif', 'call-argument')
@@ -781,6 +908,8 @@ def families(tier):
                f'a function-local variable / an argument read exactly once, inside every expression tree with <= {maxn} internal nodes, in a return, an assignment, a jump condition and a call argument: an "unused" verdict is refuted by renaming the definition', expected=nuse * len(USE_KINDS) * 2),
         Family('exprstmts', fam_exprstmt, [(maxn, idxs) for idxs in split(list(range(ntrees)), 32)],
                f'every expression tree with <= {maxn} internal nodes over {{+, &&, ==, <, unary -, !, group}} and leaves {{logging call, 0, x}} as an expression statement, at global scope and inside a function: a "pointless" verdict is justified by deleting the statement', expected=2 * ntrees),
+        Family('deep_uses', fam_deep_uses, [deep_cases()], f'the only read of a local variable / an argument sits {DEEP_N} levels down a left chain, a right chain, groups, negations, call arguments or an && chain, in a return and in a jump condition: an "unused" verdict is refuted by renaming', expected=len(deep_cases())),
+        Family('hashseeds', fam_hashseed, [[m] for m in range(len(hashseed_models()))], f'models with 8 findings of one kind per scope linted in {len(HASHSEEDS)} fresh interpreter processes with different string hash seeds: identical warning lists', expected=len(hashseed_models())),
         Family('ifstmts', fam_ifstmt, split(if_cases(), 8), 'the built-in if() as an expression statement with 1..3 arguments: condition in {0, 1, tape call}, each arm in {logging call, 0, x, 1 + logging call}, plain / as an operand / as the selected arm of another if(), at global scope and inside a function: a "pointless" verdict is justified by deleting the statement on every tape',
                expected=len(IF_WRAPS) * 2 * len(IF_CONDS) * (1 + len(IF_ARMS) + len(IF_ARMS) ** 2)),
         Family('jumpmodels', fam_jump, shards, f'every list of length <= {maxlen} over the {nq}-statement alphabet (C08 alphabet + dangling jumps, third label, pointless statement, 12 function statements (one with a nested function statement; two whose function / argument / variable / label names contain braces and percent signs), labels named like schema keys and with the reserved __bareScript prefix, with duplicate names/arguments and label-bearing bodies)',
@@ -790,7 +919,7 @@ def families(tier):
     ]
 
 
-_CHECKS = {'accessors': check_accessor, 'callee': check_callee, 'usesites': check_usesite, 'jumpmodels': check_jump, 'structured': check_structured, 'shipped': check_shipped, 'exprstmts': check_exprstmt, 'ifstmts': check_ifstmt}
+_CHECKS = {'accessors': check_accessor, 'callee': check_callee, 'usesites': check_usesite, 'jumpmodels': check_jump, 'structured': check_structured, 'shipped': check_shipped, 'exprstmts': check_exprstmt, 'ifstmts': check_ifstmt, 'deep_uses': check_deep_use, 'hashseeds': check_hashseed}
 
 
 def replay(family, case):
